@@ -25,8 +25,10 @@
                                 ResolveTotalCount answers the size of the connection
       [app_ok a edges S]        [connection_of edges S] and one of the two *)
 From Coq Require Import List ZArith Bool Sorting.Sorted Sorting.Permutation.
-From ApiFu Require Import Base.Sexp Relay.CursorCodec Relay.CursorCodecProofs
-     Relay.RelayModel Relay.RelaySpec Relay.RelayProofs Relay.RelayInstance.
+From ApiFu Require Import Base.Sexp Relay.CursorCodec Relay.CursorCodecProofs Relay.CursorCodecTotal
+     Relay.RelayModel Relay.RelayModelF Relay.RelaySpec Relay.RelayProofs Relay.RelayInstance
+     Relay.RelaySerFailProofs Relay.RelayFirstLast Relay.RelayPromiseCompose.
+From ApiFu Require Fut.Plan Fut.ExecAsync Fut.FutSpec Fut.AsyncRun Fut.FutProofs.
 Import ListNotations.
 Open Scope Z_scope.
 
@@ -215,11 +217,15 @@ Section C09.
   (** Arbitrary cursor strings: rejected with an error or treated as some position in the cursor
       order.  Full statement of C09: "arbitrary cursor strings never crash the server — they are
       either rejected with an error or treated as some position in the cursor order."
-      Proved here: the dichotomy, for the model, whose DeserializeCursor is a total function.
-      Missing (hence _partial): that the real base64 / msgpack decoders cannot panic or exhaust
-      memory on malformed input — they are transcribed in CursorCodec.v and compared with the
-      real ones on every hostile string of the run, and their behaviour is observed under recover
-      and a memory limit, but Go's memory safety is not modelled. *)
+      Proved here: the dichotomy, for the model.  That the model's DeserializeCursor reaches a value
+      or an error on EVERY byte string within fuel = its length, without ever building a value
+      larger than the string, is [C09_cursor_decode_terminates] / [_bounded] / [_total] below.
+      Still missing (hence _partial): that the REAL base64 / msgpack decoders — transcribed in
+      CursorCodec.v for every msgpack type code, compared with the real ones on every hostile
+      string of the run (every first byte 0x00-0xff with truncated / maximal length fields, nested,
+      in skipped positions), observed under recover with the heap allocated by each call measured —
+      are memory safe; Go's memory model and stack are not modelled (the one crash this exposed,
+      a stack overflow on deeply nested input, is fixed by MaxCursorLength, see findings). *)
   Theorem C09_arbitrary_cursor_partial : forall (a : app C E) edges S ar,
     app_ok C E ltb cur a edges S ->
     args_rejected (a_first ar) (a_last ar) = false ->
@@ -228,6 +234,92 @@ Section C09.
     exists af bf, response_ok C E ltb cur encode S af bf (a_first ar) (a_last ar)
                     (serve C E ltb cur encode decode a ar).
   Proof. exact (arbitrary_cursor C E ltb cur ltb_irrefl ltb_trans ltb_total encode decode). Qed.
+
+  (** ** Stage B *)
+
+  (** SerializeCursor as a partial function ([encode_f]; RelayModelF.v is the model the check runs).
+      completeConnection on ANY list of edges: a negative count panics (excluded by the resolver's
+      argument checks), an empty page serialises nothing, a non-empty page serialises the cursors
+      of its first and last edge and answers with the error [ESerialize] — not a panic, no page —
+      when either cannot be serialised. *)
+  Theorem C09_serialize_failure_cases : forall (encode_f : C -> option bytes) (a : app C E) ar bf af l,
+    match edges_to_return C E ltb cur l af bf (a_first ar) (a_last ar) with
+    | Panic => complete_now_f C E ltb cur encode_f a ar bf af l = Err EPanicked
+    | Ret (page, pi) =>
+        match page with
+        | [] => exists c, complete_now_f C E ltb cur encode_f a ar bf af l = Ok c /\ cn_edges c = []
+        | x :: _ =>
+            exists y, last_error page = Some y /\
+            match encode_f (cur x), encode_f (cur y) with
+            | Some s, Some e =>
+                exists c, complete_now_f C E ltb cur encode_f a ar bf af l = Ok c /\ cn_edges c = page /\
+                          exists sp, cn_page_info c = Ok (Sync sp) /\ sp_start sp = s /\ sp_end sp = e
+            | _, _ => complete_now_f C E ltb cur encode_f a ar bf af l = Err ESerialize
+            end
+        end
+    end.
+  Proof. exact (complete_now_f_cases C E ltb cur). Qed.
+
+  (** when every edge the application hands over has a cursor that serialises (to [encode c]), the
+      resolver with the failing SerializeCursor IS the resolver all theorems above speak about *)
+  Theorem C09_model_f_refines : forall (encode_f : C -> option bytes) (a : app C E) ar,
+    app_encodable C E cur encode encode_f a ->
+    resolve_f C E ltb cur encode_f decode a ar = resolve C E ltb cur encode decode a ar.
+  Proof. exact (fun encode_f => resolve_f_eq C E ltb cur encode encode_f decode). Qed.
+
+  (** hence one accepted request against the model the check runs: everything
+      [C09_connection_response] says, the edges delivered with their serialised cursors *)
+  Theorem C09_connection_response_f : forall (encode_f : C -> option bytes) (a : app C E) edges S ar af bf sel,
+    app_ok C E ltb cur a edges S ->
+    (forall e, In e S -> encode_f (cur e) = Some (encode (cur e))) ->
+    args_rejected (a_first ar) (a_last ar) = false ->
+    decode_arg C decode (a_after ar) EInvalidAfter = Ok af ->
+    decode_arg C decode (a_before ar) EInvalidBefore = Ok bf ->
+    response_ok C E ltb cur encode S af bf (a_first ar) (a_last ar) (serve C E ltb cur encode decode a ar) /\
+    serve_f C E ltb cur encode_f decode sel a ar =
+      lift C E cur encode sel (serve C E ltb cur encode decode a ar).
+  Proof. exact (fun encode_f => serve_f_ok C E ltb cur ltb_irrefl ltb_trans ltb_total encode encode_f decode). Qed.
+
+  (** ConnectionConfig.Direction: a forward-only connection answers exactly as the bidirectional
+      one when [first] is an int and neither [last] nor [before] is written (not even as null),
+      and is rejected before the resolver runs otherwise; backward-only symmetrically.  So every
+      theorem above holds of one-directional connections on the arguments they define. *)
+  Theorem C09_forward_only : forall (encode_f : C -> option bytes) sel (a : app C E) w,
+    match w_first w, warg_given (w_last w) || warg_given (w_before w) with
+    | WVal _, false => serve_dir C E ltb cur encode_f decode ForwardOnly sel a w
+                       = serve_dir C E ltb cur encode_f decode Bidirectional sel a w
+    | _, _ => serve_dir C E ltb cur encode_f decode ForwardOnly sel a w = FError EValidation
+    end.
+  Proof. exact (fun encode_f => forward_only_serves C E ltb cur encode_f decode). Qed.
+
+  Theorem C09_backward_only : forall (encode_f : C -> option bytes) sel (a : app C E) w,
+    match w_last w, warg_given (w_first w) || warg_given (w_after w) with
+    | WVal _, false => serve_dir C E ltb cur encode_f decode BackwardOnly sel a w
+                       = serve_dir C E ltb cur encode_f decode Bidirectional sel a w
+    | _, _ => serve_dir C E ltb cur encode_f decode BackwardOnly sel a w = FError EValidation
+    end.
+  Proof. exact (fun encode_f => backward_only_serves C E ltb cur encode_f decode). Qed.
+
+  (** cost: the number of edges defaultConnectionCost charges for ([last] if given, else [first])
+      bounds the number of edges an accepted request returns *)
+  Theorem C09_cost_bounds_page : forall (a : app C E) edges S ar af bf,
+    app_ok C E ltb cur a edges S ->
+    args_rejected (a_first ar) (a_last ar) = false ->
+    decode_arg C decode (a_after ar) EInvalidAfter = Ok af ->
+    decode_arg C decode (a_before ar) EInvalidBefore = Ok bf ->
+    exists page pi t, serve C E ltb cur encode decode a ar = RData page pi t /\
+                      Z.of_nat (length page) <= max_edge_count ar.
+  Proof. exact (cost_bounds_page C E ltb cur ltb_irrefl ltb_trans ltb_total encode decode). Qed.
+
+  (** [first] AND [last] through the public pagination.EdgesToReturn: hasPreviousPage is the
+      specification's formula applied to the edges that survive the [first]-truncation (the prose
+      reading, sound by [C09_relay_has_prev_sound]); hasNextPage is the formula itself *)
+  Theorem C09_first_last_prev_exact : forall edges S after before n m page pi,
+    connection_of C E ltb cur edges S ->
+    edges_to_return C E ltb cur edges after before (Some n) (Some m) = Ret (page, pi) ->
+    pi_prev pi = count_gt E (keep_first E n (position_apply_cursors C E ltb cur S before after)) m /\
+    pi_next pi = count_gt E (position_apply_cursors C E ltb cur S before after) n.
+  Proof. exact (first_last_prev_exact C E ltb cur ltb_irrefl ltb_trans ltb_total). Qed.
 End C09.
 
 (** ** The real codec (SerializeCursor / DeserializeCursor for Go int and string cursors) *)
@@ -254,6 +346,132 @@ Theorem C09_walk_backward_exact_codec : forall (E : Type) (cur : E -> cursor) (k
   walk_backward E (as_server cursor E cursor_ltb cur cursor_encode (cursor_decode k) a) n (Datatypes.S (length S)) None = Done S.
 Proof. exact walk_backward_codec. Qed.
 
+(** ** Stage B: the decoder terminates and is bounded, for every cursor type and EVERY byte string *)
+
+(** with the literal formula of the specification NO implementation can satisfy both clauses of C09
+    when [first] and [last] are given together: edges 1,2,3, first = 2, last = 2 — the formula
+    demands hasPreviousPage although nothing precedes the page [1;2] *)
+Theorem C09_first_last_dilemma :
+  exists (S : list Z) (first last : option Z) (page : list Z),
+    spec_edges Z Z Z.ltb (fun x => x) S None None first last = Some page /\
+    has_prev_required Z Z Z.ltb (fun x => x) S None None last = true /\
+    ~ edge_before_start Z Z Z.ltb (fun x => x) S page.
+Proof. exact first_last_dilemma. Qed.
+
+(** Decoder.Skip (transcribed for every first byte 0x00-0xff, [mp_header]): skipping any number of
+    values from any byte string needs no more fuel than there are bytes, although array32 / map32
+    headers may claim 2^32-1 elements and Skip recurses *)
+Theorem C09_skip_terminates : forall fuel todo b, (length b <= fuel)%nat -> mp_skip fuel todo b <> SkOutOfFuel.
+Proof. exact mp_skip_fuel. Qed.
+
+(** DeserializeCursor: fuel = the length of the string always suffices ... *)
+Theorem C09_cursor_decode_terminates : forall fuel k s, (length s <= fuel)%nat -> cursor_decode_f fuel k s <> DOutOfFuel.
+Proof. exact cursor_decode_never_out_of_fuel. Qed.
+
+(** ... more fuel changes nothing ... *)
+Theorem C09_cursor_decode_fuel_irrelevant : forall fuel k s, (length s <= fuel)%nat ->
+  cursor_decode_f fuel k s = cursor_decode_f (length s) k s.
+Proof. exact cursor_decode_fuel_irrelevant. Qed.
+
+(** ... so the [None] of [cursor_decode] (used by all theorems above) is an error, never an
+    exhausted fuel ... *)
+Theorem C09_cursor_decode_total : forall k s,
+  (exists c, cursor_decode_f (length s) k s = DOk c /\ cursor_decode k s = Some c) \/
+  (cursor_decode_f (length s) k s = DErr /\ cursor_decode k s = None).
+Proof. exact cursor_decode_total. Qed.
+
+(** ... the decoded value is never larger than the cursor string (a str32 / bin32 header claiming
+    4 GiB is an error unless the bytes are there) ... *)
+Theorem C09_cursor_decode_bounded : forall fuel k s c, cursor_decode_f fuel k s = DOk c -> (cursor_size c <= length s)%nat.
+Proof. exact cursor_decode_bounded. Qed.
+
+(** ... and the msgpack document handed to the decoder has at most MaxCursorLength = 65536 bytes
+    (bounding the number of Skip calls, hence the depth of Go's recursive Skip) *)
+Theorem C09_cursor_decode_input_bounded : forall fuel k s c, cursor_decode_f fuel k s = DOk c ->
+  exists b, b64_decode s = Some b /\ (N.of_nat (length b) <= max_cursor_length)%N.
+Proof. exact cursor_decode_input_bounded. Qed.
+
+(** SerializeCursor (with its length bound) succeeds on every encodable cursor — every 64-bit int,
+    every string / TimeBasedCursor id up to 32000 bytes ([cursor_ok_int/_str/_time]) — and what it
+    returns is accepted back *)
+Theorem C09_cursor_roundtrip_f : forall c, cursor_ok c ->
+  exists s, cursor_encode_f c = Some s /\ cursor_decode (kind_of c) s = Some c.
+Proof. exact cursor_roundtrip_f. Qed.
+
+Theorem C09_cursor_ok_time : forall n i, (- 2 ^ 63 <= n < 2 ^ 63)%Z -> (N.of_nat (length i) <= 32000)%N ->
+  Forall (fun x => (x < 256)%N) i -> cursor_ok (CTime n i).
+Proof. exact cursor_ok_time. Qed.
+
+(** TimeBasedCursor.LessThan is a strict total order (the hypotheses of all theorems, for struct cursors) *)
+Theorem C09_cursor_order : (forall a, cursor_ltb a a = false) /\
+  (forall a b c, cursor_ltb a b = true -> cursor_ltb b c = true -> cursor_ltb a c = true) /\
+  (forall a b, cursor_ltb a b = true \/ a = b \/ cursor_ltb b a = true).
+Proof. exact (conj cursor_ltb_irrefl (conj cursor_ltb_trans cursor_ltb_total)). Qed.
+
+(** ** Stage B: "paging visits each edge once" for the model the check runs — SerializeCursor /
+    DeserializeCursor with MaxCursorLength, int, string and struct (TimeBasedCursor) cursors — through
+    a forward-only or bidirectional connection forwards, a backward-only or bidirectional one
+    backwards.  [as_server_dir d a] is the field of a connection with Direction [d]
+    (RelayModelF.serve_dir, arguments the client does not write are absent). *)
+Theorem C09_walk_forward_exact_dir_codec :
+  forall (E : Type) (cur : E -> cursor) (k : kind) (a : app cursor E) edges S d,
+  app_ok cursor E cursor_ltb cur a edges S ->
+  (forall e, In e S -> kind_of (cur e) = k /\ cursor_ok (cur e)) ->
+  d = ForwardOnly \/ d = Bidirectional ->
+  forall n, 1 <= n ->
+  walk_forward E (as_server_dir cursor E cursor_ltb cur cursor_encode_f (cursor_decode k) d a) n (Datatypes.S (length S)) None = Done S.
+Proof. exact (fun E cur k a edges S d Happ Hcur Hd n Hn => walk_forward_dir_codec E cur k a edges S Happ Hcur d n Hd Hn). Qed.
+
+Theorem C09_walk_backward_exact_dir_codec :
+  forall (E : Type) (cur : E -> cursor) (k : kind) (a : app cursor E) edges S d,
+  app_ok cursor E cursor_ltb cur a edges S ->
+  (forall e, In e S -> kind_of (cur e) = k /\ cursor_ok (cur e)) ->
+  d = BackwardOnly \/ d = Bidirectional ->
+  forall n, 1 <= n ->
+  walk_backward E (as_server_dir cursor E cursor_ltb cur cursor_encode_f (cursor_decode k) d a) n (Datatypes.S (length S)) None = Done S.
+Proof. exact (fun E cur k a edges S d Happ Hcur Hd n Hn => walk_backward_dir_codec E cur k a edges S Happ Hcur d n Hd Hn). Qed.
+
+(** ** Stage B: TimeBasedConnection's ResolveEdges (the generic-Connection side of it; which range
+    queries it asks belongs to C16).  [time_resolve_edges answers] transcribes how it collects the
+    EdgeGetter's answers — slices appended as they come, promises joined, the continuation appending
+    to the same slice.  Whatever mixture of direct answers and promises the getter uses, what is
+    handed to the Connection machinery is a permutation of the concatenation of all answers:
+    nothing dropped, nothing twice (so [app_window_ok] is met whenever the answers together contain
+    the needed window, and every theorem above applies). *)
+Theorem C09_time_resolve_edges_delivers : forall (E : Type) (answers : list (result (later (list E)))) (ls : list (list E)),
+  Forall2 (delivers E) answers ls ->
+  exists L, delivers E (time_resolve_edges E answers) L /\ Permutation L (concat ls).
+Proof. exact time_resolve_edges_delivers. Qed.
+
+(** ** Stage B: promises, composed with the executor model of C02 and the idle handler of C15.
+    RelayModel treats a promise as "will deliver a value or an error"; goroutines and the
+    IdleHandler are outside it.  What it needs from them — a resolver answering through a promise
+    yields under every schedule the response it would yield answering directly — is C02's theorem
+    about the executor model (Fut/ExecAsync.run) once the connection field is written as a C02 plan
+    ([plan_of_result]: the field is asynchronous iff the resolver returned a promise; on the lazy
+    zero-edge path also pageInfo / totalCount).  Two applications handing over the same edges, one
+    directly, one through promises: under ANY two fair idle handlers (C15_handler_record_is_fair_
+    scheduler: api-fu's handler is one) both runs finish, with the same data, both conforming. *)
+Theorem C09_promise_composes_with_executor :
+  forall (C E : Type) (ltb : C -> C -> bool) (cur : E -> C) (encode : C -> bytes) (decode : bytes -> option C)
+         (node : E -> Z) (k_edges k_page_info k_total k_cursor k_node k_prev k_next k_start k_end : bytes)
+         (a1 a2 : app C E) ar key md sigma1 sigma2 fuel1 fuel2 jfuel,
+    app_has_all a1 = app_has_all a2 -> app_total a1 = app_total a2 ->
+    (exists l, delivers E (app_all a1) l /\ delivers E (app_all a2) l) ->
+    (forall af bf limit, exists l, delivers E (app_edges a1 af bf limit) l /\ delivers E (app_edges a2 af bf limit) l) ->
+    let plan a := [(key, plan_of_result C E cur encode node k_edges k_page_info k_total k_cursor k_node k_prev k_next k_start k_end
+                           (fst (resolve C E ltb cur encode decode a ar)))] in
+    Fut.AsyncRun.fair sigma1 -> Fut.AsyncRun.fair sigma2 ->
+    (Fut.Plan.count_async (plan a1) <= fuel1)%nat -> (Fut.Plan.count_async (plan a2) <= fuel2)%nat ->
+    (Fut.FutProofs.resp_depth (plan a1) < jfuel)%nat ->
+    exists r1 r2,
+      Fut.ExecAsync.run Fut.ExecAsync.fixed_flags sigma1 md fuel1 jfuel (plan a1) = Fut.ExecAsync.Done r1 /\
+      Fut.ExecAsync.run Fut.ExecAsync.fixed_flags sigma2 md fuel2 jfuel (plan a2) = Fut.ExecAsync.Done r2 /\
+      Fut.ExecAsync.r_data r1 = Fut.ExecAsync.r_data r2 /\
+      Fut.FutSpec.conforms (plan a1) (Fut.ExecAsync.r_data r1) (Fut.ExecAsync.r_errors r1) /\
+      Fut.FutSpec.conforms (plan a1) (Fut.ExecAsync.r_data r2) (Fut.ExecAsync.r_errors r2).
+Proof. exact connection_promise_composes. Qed.
+
 Print Assumptions C09_relay_edges_eq.
 Print Assumptions C09_relay_literal_agrees.
 Print Assumptions C09_relay_sorted.
@@ -276,3 +494,24 @@ Print Assumptions C09_cursor_roundtrip.
 Print Assumptions C09_cursor_encode_nonempty.
 Print Assumptions C09_walk_forward_exact_codec.
 Print Assumptions C09_walk_backward_exact_codec.
+Print Assumptions C09_serialize_failure_cases.
+Print Assumptions C09_model_f_refines.
+Print Assumptions C09_connection_response_f.
+Print Assumptions C09_forward_only.
+Print Assumptions C09_backward_only.
+Print Assumptions C09_first_last_prev_exact.
+Print Assumptions C09_first_last_dilemma.
+Print Assumptions C09_skip_terminates.
+Print Assumptions C09_cursor_decode_terminates.
+Print Assumptions C09_cursor_decode_fuel_irrelevant.
+Print Assumptions C09_cursor_decode_total.
+Print Assumptions C09_cursor_decode_bounded.
+Print Assumptions C09_cursor_decode_input_bounded.
+Print Assumptions C09_cursor_roundtrip_f.
+Print Assumptions C09_cursor_ok_time.
+Print Assumptions C09_cursor_order.
+Print Assumptions C09_promise_composes_with_executor.
+Print Assumptions C09_cost_bounds_page.
+Print Assumptions C09_walk_forward_exact_dir_codec.
+Print Assumptions C09_walk_backward_exact_dir_codec.
+Print Assumptions C09_time_resolve_edges_delivers.
